@@ -1278,6 +1278,16 @@ impl Tuple {
         Ok(())
     }
 
+    /// Clears the deleter of the tuple (its delete was rolled back).
+    pub(crate) fn undelete(&mut self) -> TupleResult<()> {
+        let buffer = self.data.effective_data_mut();
+        let (mut header, _) = TupleHeader::read_from(buffer, 0);
+        header.xmax = -1;
+        header.write_to(buffer, 0);
+
+        Ok(())
+    }
+
     /// Vacuums the tuple by removing all delta versions that are no longer needed
     /// by any active transaction.
     ///
